@@ -622,6 +622,30 @@ func (c *CEnv) evalCall(e *CExpr) Val {
 	if sf, ok := x.eng.specs[e.Name]; ok {
 		return c.callSpec(e, sf, args())
 	}
+	// deterministic repo function: F(args) denotes its result
+	if c.pkg != nil {
+		key := c.pkg.Name() + "." + e.Name
+		if fc, ok := x.eng.contracts[key]; ok && fc.Pure {
+			if fi := x.eng.funcs[key]; fi != nil {
+				sig := fi.Obj.Type().(*types.Signature)
+				if sig.Recv() == nil && sig.Results().Len() >= 1 {
+					vs := args()
+					var sorts []Sort
+					var ts []*Term
+					for j, a := range vs {
+						pty := x.w.goTy(sig.Params().At(j).Type(), x.model.BV)
+						t := x.coerceTo(a, pty)
+						sorts = append(sorts, t.Sort)
+						ts = append(ts, t)
+					}
+					rty := x.w.goTy(sig.Results().At(0).Type(), x.model.BV)
+					fn := fmt.Sprintf("det_%s_%d", sanitize(key), 0)
+					x.sym.Func(fn, sorts, x.w.sortOf(rty, x.model))
+					return Val{T: mk(fn, x.w.sortOf(rty, x.model), ts...), Ty: rty}
+				}
+			}
+		}
+	}
 	// pure function-typed parameter: f(x)
 	if c.lookup != nil {
 		if fv, ok := c.lookup(e.Name); ok && fv.Ty.K == TOpaque {
